@@ -606,8 +606,11 @@ func (m *Machine) speculate(fr *frame, s *ssa.BasicBlock) (ok bool) {
 				return false
 			}
 			x, y := fr.get(in.X), fr.get(in.Y)
-			if _, isI := x.(iface); isI {
-				return false // interface comparison may panic
+			if xi, isI := x.(iface); isI {
+				// interface comparison panics on uncomparable dynamic types
+				if yi, ok := y.(iface); !ok || (xi.t != nil && sameType(xi.t, yi.t) && !types.Comparable(xi.t)) {
+					return false
+				}
 			}
 			if _, isS := x.(sstr); isS {
 				return false
